@@ -90,8 +90,9 @@ type Obligation struct {
 }
 
 type loopSpec struct {
-	invs []Clause
-	decs []Clause
+	invs  []Clause
+	decs  []Clause
+	steps []Clause
 }
 
 type frame struct {
@@ -149,6 +150,7 @@ type Unit struct {
 	letWitness  int
 	inDefer     int
 	witMemo     map[string]Val
+	iterState   *State
 	witnessHint types.Type
 	witnessTyp  types.Type
 	curPos      token.Pos
